@@ -1,6 +1,6 @@
 /* probe_io.c -- C probe of the read/write path (C01): drives lbuf_rd / lbuf_wr / sbuf_mem of
  * /repo's current sources.  Same line protocol as ocaml/drv_io.ml.
- *   rw <chunks: hex,hex,...|-> <b> <e|-1> <old hex|-|absent>
+ *   rw <chunks: hex,hex,...|-> <b> <e|-1> <old hex|-|absent> [<pos> <chunks2>]   (second file read at line pos, as :Nr)
  *      the chunks are delivered to lbuf_rd one read(2) each (SOCK_SEQPACKET: one record per read),
  *      then lines [b,e) are written with lbuf_wr onto a real file that held <old>
  *   sbuf <len,len,...>   (len -1 = sbuf_chr)
@@ -17,20 +17,14 @@
 
 static char tmpl[256];
 
-static void do_rw(char *chunks, int b, int e, char *old)
+/* deliver the chunks one record each on a SOCK_SEQPACKET pair and run lbuf_rd on the other end */
+static int feed_rd(struct lbuf *lb, char *chunks, int pos)
 {
 	int sv[2];
-	struct lbuf *lb = lbuf_make();
 	pid_t pid;
-	int fd, i, rd;
-	long tot = 0;
-	char *text;
-	struct stat st;
-	char *data;
-	if (socketpair(AF_UNIX, SOCK_SEQPACKET, 0, sv) < 0) {
-		printf("error socketpair\n");
-		return;
-	}
+	int rd, st;
+	if (socketpair(AF_UNIX, SOCK_SEQPACKET, 0, sv) < 0)
+		return 100;
 	fflush(stdout);
 	pid = fork();
 	if (pid == 0) {
@@ -54,11 +48,23 @@ static void do_rw(char *chunks, int b, int e, char *old)
 		_exit(0);
 	}
 	close(sv[1]);
-	rd = lbuf_rd(lb, sv[0], 0, 0);
+	rd = lbuf_rd(lb, sv[0], pos, pos);
 	close(sv[0]);
-	waitpid(pid, &i, 0);
-	if (rd || !WIFEXITED(i) || WEXITSTATUS(i)) {
-		printf("error read rd=%d st=%d\n", rd, i);
+	waitpid(pid, &st, 0);
+	if (rd || !WIFEXITED(st) || WEXITSTATUS(st))
+		return 101;
+	return 0;
+}
+
+static void do_rw(char *chunks, int b, int e, char *old, int pos, char *chunks2)
+{
+	struct lbuf *lb = lbuf_make();
+	int fd, i;
+	long tot = 0;
+	struct stat st;
+	char *data;
+	if (feed_rd(lb, chunks, 0) || (chunks2 && feed_rd(lb, chunks2, pos))) {
+		printf("error read\n");
 		lbuf_free(lb);
 		return;
 	}
@@ -95,7 +101,6 @@ static void do_rw(char *chunks, int b, int e, char *old)
 		if (lb->ln[i][0])
 			pu_hex(lb->ln[i], strlen(lb->ln[i]));
 	printf(" cap=%d lnsz=%d\n", lb->ln_n < lb->ln_sz, lb->ln_sz);
-	text = NULL;
 	lbuf_free(lb);
 	unlink(tmpl);
 }
@@ -134,8 +139,8 @@ int main(int argc, char *argv[])
 	snprintf(tmpl, sizeof(tmpl), "%s/probe_io.%d.out", argc > 1 ? argv[1] : "/var/tmp", (int) getpid());
 	while ((l = pu_getline())) {
 		int n = pu_words(l, w, 8);
-		if (n == 5 && !strcmp(w[0], "rw"))
-			do_rw(w[1], atoi(w[2]), atoi(w[3]), w[4]);
+		if ((n == 5 || n == 7) && !strcmp(w[0], "rw"))
+			do_rw(w[1], atoi(w[2]), atoi(w[3]), w[4], n == 7 ? atoi(w[5]) : 0, n == 7 ? w[6] : NULL);
 		else if (n == 2 && !strcmp(w[0], "sbuf"))
 			do_sbuf(w[1]);
 		else
